@@ -114,7 +114,8 @@ def get_next_entry(file, entrymarker="\xFE\xFF\xFE\xFF\xFE\xFF\xFE\xFF\xFE\xFF",
             if start >= 0: start = start + len(entrymarker)
         # If we have a starting marker, we try to find a subsequent marker which will be the ending of our entry (if the entry is corrupted we don't care: it won't pass the entry_to_dict() decoding or subsequent steps of decoding and we will just pass to the next ecc entry). This allows to process any valid entry, no matter if previous ones were scrambled.
         if startcursor is not None and startcursor >= 0:
-            end = buf.find(entrymarker, start)
+            minend = startcursor + len(entrymarker) - (file.tell() - len(buf)) # never look for the ending marker before the end of the starting marker (after the rewind below, the starting marker can be inside the current buffer again)
+            end = buf.find(entrymarker, max(start, minend, 0))
             if end < 0 and len(buf) < blocksize: # Special case: we didn't find any ending marker but we reached the end of file, then we are probably in fact just reading the last entry (thus there's no ending marker for this entry)
                 end = len(buf) # It's ok, we have our entry, the ending marker is just the end of file
             # If we found an ending marker (or if end of file is reached), then we compute the absolute cursor value and put the file reading cursor back in position, just before the next entry (where the ending marker is if any)
@@ -126,7 +127,7 @@ def get_next_entry(file, entrymarker="\xFE\xFF\xFE\xFF\xFE\xFF\xFE\xFF\xFE\xFF",
                     found = True
                 else:
                     end = -1
-                    encursor = None
+                    endcursor = None
         #print("Start:", start, startcursor)
         #print("End: ", end, endcursor)
         # Stop criterion to avoid infinite loop: in the case we could not find any entry in the rest of the file and we reached the EOF, we just quit now
